@@ -284,6 +284,15 @@ def run_session(case: dict) -> dict:
                     stats["builds_in_worker_thread"] = stats.get("builds_in_worker_thread", 0) + 1
                 else:
                     v = DecayChainViewer(chain)
+                if op.get("kill_to_string"):
+                    # the first request for the DOT source is killed part-way; the caller simply asks again
+                    from simkit.inject import Injector, SimFault
+
+                    inj = Injector(int(op["kill_to_string"]))
+                    try:
+                        inj.run(v.to_string)
+                    except SimFault:
+                        stats["to_string_interrupted"] = stats.get("to_string_interrupted", 0) + 1
                 src = v.to_string()
                 stats["builds"] += 1
                 try:
@@ -472,6 +481,8 @@ def gen_session(rng: random.Random, cfg: dict | None = None) -> dict:
             b = {"op": "build", **source()}
             if rng.random() < p_thread:
                 b["thread"] = True
+            if rng.random() < 0.08:
+                b["kill_to_string"] = rng.choice([1, 2, 3, rng.randint(4, 60), rng.randint(4, 400)])
             ops.append(b)
             builds += 1
     if rng.random() < p_dot * 4:
@@ -499,8 +510,9 @@ def candidates(case: dict):
                 yield {**case, "ops": new}
         size //= 2
     for i, op in enumerate(ops):
-        if op.get("thread"):
-            yield {**case, "ops": ops[:i] + [{k: v for k, v in op.items() if k != "thread"}] + ops[i + 1 :]}
+        for flag in ("thread", "kill_to_string"):
+            if op.get(flag):
+                yield {**case, "ops": ops[:i] + [{k: v for k, v in op.items() if k != flag}] + ops[i + 1 :]}
     for i, op in enumerate(ops):
         if op.get("stable"):
             yield {**case, "ops": ops[:i] + [{**op, "stable": []}] + ops[i + 1 :]}
